@@ -100,6 +100,96 @@ class PublicPath:
         return txt, eff
 
 
+class MultiFile:
+    """several files written one after the other through ONE processor list in one process: two type files (user template Any.j2) and the
+    support header (user support template serialization.j2), each yielding the chunks given for it.  Every written file is an execution of
+    its own: the file must equal Whole(the text of THAT file, pps) whatever was written before it with the same processor objects."""
+
+    def __init__(self, ctx):
+        import pydsdl
+        from nunavut.lang import LanguageContextBuilder
+
+        self.root = ctx.scratch / "multi"
+        (self.root / "dsdl" / "ns").mkdir(parents=True)
+        (self.root / "tpl").mkdir()
+        (self.root / "sup").mkdir()
+        (self.root / "dsdl" / "ns" / "A.1.0.dsdl").write_text("uint8 a\n@sealed\n")
+        (self.root / "dsdl" / "ns" / "B.1.0.dsdl").write_text("uint8 b\n@sealed\n")
+        (self.root / "tpl" / "Any.j2").write_text("{% for c in texts[T.short_name] %}{{ c }}{% endfor %}")
+        (self.root / "sup" / "serialization.j2").write_text("{% for c in texts['support'] %}{{ c }}{% endfor %}")
+        self.types = pydsdl.read_namespace(str(self.root / "dsdl" / "ns"), [])
+        self.lctx = LanguageContextBuilder(include_experimental_languages=True).set_target_language("cpp").create()
+        self.n = 0
+
+    def run(self, texts, ppdesc, order):
+        """texts: {"A": chunks, "B": chunks, "support": chunks}; order: sequence of "types" / "support" generator runs.
+        returns [(name, chunks, file text)] in the order the files were written"""
+        import nunavut
+        from nunavut._generators import create_default_generators
+
+        self.n += 1
+        out = self.root / ("out%d" % self.n)
+        ns = nunavut.build_namespace_tree(self.types, str(self.root / "dsdl" / "ns"), str(out), self.lctx)
+        cg, sg = create_default_generators(ns, templates_dir=self.root / "tpl", support_templates_dir=self.root / "sup",
+                                           additional_globals={"texts": texts}, post_processors=mk_pps(ppdesc) or None)
+        res = []
+        for step in order:
+            written = list((cg if step == "types" else sg).generate_all(False, True))
+            for pth in written:
+                name = "support" if step == "support" else pathlib.Path(pth).name[0]
+                with open(pth, "r", encoding="utf-8", newline="") as f:
+                    res.append((name, texts[name], f.read()))
+        import shutil
+
+        shutil.rmtree(out, ignore_errors=True)
+        return res
+
+
+LONG_MARK = "L"  # stands for a run of K non-white-space characters in the core text of a long-line case
+
+
+def long_cases(rng, quick):
+    """lines far longer than any buffer size one might choose: core texts over {L, x, SP, CR, LF} in which L is expanded to K copies of 'y'
+    (K around powers of two), delivered in chunkings that cut right before / after / inside the runs and around the blanks and terminators.
+    Post-processing commutes with expanding a run of non-white-space characters, so the written file with every run of exactly K 'y'
+    contracted back to L must be Whole(core text, pps): the T-layer decides on the CORE text."""
+    cores = ["L L\n", "L \nL\n", "L \r\nx \n", " L\n\n\nL", "xL \n\n L \n", "L\n \n\nL \n", "L  L  \n\nx", "L\r\n\r\n\r\nL "]
+    ks = [4095, 4096, 4097, 65535, 65536, 65537] + ([] if quick else [8191, 8193, 32768, 131071, 131073, 262145])
+    ppl = [[{"k": "trim"}], [{"k": "limit", "n": 0}], [{"k": "limit", "n": 1}], [{"k": "trim"}, {"k": "limit", "n": 1}], [{"k": "limit", "n": 0}, {"k": "trim"}], []]
+    res = []
+    for core in cores:
+        for K in ks:
+            for pps in ppl:
+                # chunkings of the expanded text, described on the core: cut points between core characters, optionally inside a run
+                cuts_all = list(range(1, len(core)))
+                styles = [cuts_all, [c for c in cuts_all if core[c - 1] == LONG_MARK], [c for c in cuts_all if core[c - 1] in " "], rng.sample(cuts_all, min(2, len(cuts_all)))]
+                for st, cuts in enumerate(styles):
+                    inside = st % 2 == 0  # also split every run in the middle and one character before its end
+                    chunks, cur = [], ""
+                    for i, ch in enumerate(core):
+                        if i in cuts and cur:
+                            chunks.append(cur)
+                            cur = ""
+                        if ch == LONG_MARK:
+                            if inside:
+                                chunks += [cur + "y" * (K // 2), "y" * (K - K // 2 - 1)]
+                                cur = "y"
+                            else:
+                                cur += "y" * K
+                        else:
+                            cur += ch
+                    chunks.append(cur)
+                    res.append((core, K, pps, [c for c in chunks if c != ""] or [""]))
+    if quick:
+        res = [r for i, r in enumerate(res) if i % 3 == 0]
+    return res
+
+
+def contract(text, K):
+    """every maximal run of 'y' of length exactly K -> L (other run lengths stay: the T-layer then sees characters the core text lacks)"""
+    return re.sub(r"y+", lambda m: LONG_MARK if len(m.group(0)) == K else m.group(0)[:50], text)
+
+
 def cps(s):
     return [ord(c) for c in s]
 
@@ -224,6 +314,58 @@ def run(ctx):
     ctx.sample({"direction": "code->spec", **{k: recs[7][k] for k in ("path", "chunks", "pps", "out")}})
     judge(ctx, recs, stim)
 
+    # 3b. size boundaries: very long lines (expanded runs) in many chunkings; judged on the core text
+    lrecs, lstim = [], {}
+    for core, K, pps, chunks in long_cases(ctx.rng, ctx.quick):
+        out = run_linebuffer(chunks, pps)
+        ctx.count()
+        rid = len(lrecs)
+        core_chunks = [contract(c, K) for c in chunks]
+        # chunks that end inside a run cannot be contracted one by one: describe the chunking of the core by its cut points only
+        lrecs.append({"id": rid, "path": "linebuffer-long", "text": cps(core), "chunks": [cps(core)], "pps": pps, "out": cps(contract(out, K))})
+        lstim[rid] = (chunks, pps, "linebuffer")
+        ctx.distinct("long|%s|%d|%s|%d" % (sha(core)[:6], K, ",".join(p["k"] for p in pps), len(chunks)))
+    rej = tlc.validate_traces(ctx, "LineBufferTrace", lrecs, batch=3000)
+    for rid, clause in rej.items():
+        chunks, pps, path = lstim[rid]
+        ctx.violation("C15|chunk.whole|long-line|%s" % (",".join(p["k"] for p in pps) or "none"),
+                      "a file with a line of more than %d characters differs from Whole(text, pps) [%s]; chunk lengths %r" % (max(len(c) for c in chunks), clause, [len(c) for c in chunks][:12]),
+                      {"chunks_rle": [[c[:1], len(c)] if len(set(c)) == 1 else c for c in chunks], "chunks": None, "pps": pps, "path": "linebuffer-long",
+                       "core": to_s(lrecs[rid]["text"]), "K": max(len(c) for c in chunks)})
+    ctx.cov["long_line_cases"] = len(lrecs)
+
+    # 3c. histories: several files (two types, the support header) written one after the other through one processor list
+    multi = MultiFile(ctx)
+    mrecs, mstim = [], {}
+    orders = [("types", "support"), ("support", "types"), ("support", "support"), ("types", "types"), ("types", "support", "types")]
+    for i in range(ctx.pick(120, 1200)):
+        texts, pps = {}, None
+        for name in ("A", "B", "support"):
+            ch, p = rand_case(ctx.rng, ctx.rng.choice([6, 14]), ALPHA)
+            # files that begin and end with empty lines are the delicate ones: state carried from one file into the next shows there
+            if ctx.rng.random() < 0.6:
+                ch = [ctx.rng.choice(["\n", "\n\n", " \n"])] + ch + [ctx.rng.choice(["\n", "\n\n\n", "\r\n\r\n"])]
+            texts[name] = ch
+            pps = pps or p
+        if not pps:
+            pps = [{"k": "limit", "n": ctx.rng.choice([0, 1, 2])}]
+        order = orders[i % len(orders)]
+        for pos, (name, chunks, written) in enumerate(multi.run(texts, pps, order)):
+            ctx.count()
+            rid = len(mrecs)
+            mrecs.append(record(rid, chunks, pps, written, "multi-file"))
+            mstim[rid] = (texts, pps, order, name, pos)
+            ctx.distinct("multi|%s|%s|%d|%s" % ("-".join(order), name, pos, sha(repr(chunks))[:6]), nontrivial=pos > 0)
+    rej = tlc.validate_traces(ctx, "LineBufferTrace", mrecs, batch=3000)
+    for rid, clause in rej.items():
+        texts, pps, order, name, pos = mstim[rid]
+        if clause.startswith("harness"):
+            raise MachineryFailure("harness produced an inconsistent multi-file record %r" % (mstim[rid],))
+        ctx.violation("C15|chunk.whole|file-%s-written-after-others|%s" % ("support" if name == "support" else "type", ",".join(p["k"] for p in pps)),
+                      "file %d of a run sequence %s (%s) differs from Whole(its own text, pps): state of a processor was carried over from the file before [%s]"
+                      % (pos + 1, "+".join(order), name, clause), {"multi": True, "texts": texts, "pps": pps, "order": list(order), "name": name, "pos": pos})
+    ctx.cov["multi_file_records"] = len(mrecs)
+
     # 4. binding self-test: corrupt one recorded field, the T-layer must reject exactly that record
     bad = dict(recs[11])
     bad["out"] = bad["out"] + [120]
@@ -243,6 +385,23 @@ def run(ctx):
 
 
 def replay(ctx, case):
+    if case.get("multi"):
+        hit = False
+        for pos, (name, chunks, written) in enumerate(MultiFile(ctx).run(case["texts"], case["pps"], case["order"])):
+            rej = tlc.validate_traces(ctx, "LineBufferTrace", [record(0, chunks, case["pps"], written, "multi-file")])
+            if rej:
+                ctx.violation("C15|chunk.whole|file-%s-written-after-others|%s" % ("support" if name == "support" else "type", ",".join(p["k"] for p in case["pps"])),
+                              "file %d (%s) differs from Whole(its own text, pps)" % (pos + 1, name), case)
+        return
+    if case.get("path") == "linebuffer-long":
+        chunks = ["".join(x[0] * x[1] if isinstance(x, list) else x for x in [c])for c in case["chunks_rle"]]
+        out = run_linebuffer(chunks, case["pps"])
+        K = max(len(m) for c in chunks for m in re.findall(r"y+", c)) if any("y" in c for c in chunks) else 0
+        K = max([len(m) for m in re.findall(r"y+", "".join(chunks))] or [0])
+        rec = {"id": 0, "path": "linebuffer-long", "text": cps(case["core"]), "chunks": [cps(case["core"])], "pps": case["pps"], "out": cps(contract(out, K))}
+        if tlc.validate_traces(ctx, "LineBufferTrace", [rec]):
+            ctx.violation("C15|chunk.whole|long-line|%s" % (",".join(p["k"] for p in case["pps"]) or "none"), "long line differs from Whole(text, pps)", case)
+        return
     chunks_s, pps, path = case["chunks"], case["pps"], case.get("path", "linebuffer")
     if path == "linebuffer":
         out = run_linebuffer(chunks_s, pps)
